@@ -13,7 +13,7 @@ RULE = ("annotations from the C01 generator (valid, and with one tree-level faul
 ASSUMPTIONS = ["relational monitor: a defect affecting both executions identically is invisible here (C01 covers that)",
                "only ERROR severity is compared (capitalisation warnings legitimately depend on spelling)"]
 MIN_MONITOR_EVALS = {"revalidation-stable": 3000, "codes-equal-under-rewrite": 3000, "repeat-reported-anywhere": 100}
-MIN_KINDS = {"base-kind": {"mixed-toplevel": 50, "same-base-repeat": 50}, "rewrite": {"respace-text": 1000}}
+MIN_KINDS = {"base-kind": {"mixed-toplevel": 50, "same-base-repeat": 50, "two-tag-faults": 50}, "rewrite": {"respace-text": 1000}}
 TREE_KINDS = ["unknown-tag", "extension-forbidden", "extension-is-schema-term", "requires-child", "bad-unit", "bad-value",
               "repeated-tag", "repeated-group", "taggroup-outside-group", "toplevel-nested", "empty-group",
               "stray-placeholder", "undeclared-def", "def-extra-value", "def-missing-value", "altered-def-expand",
@@ -182,6 +182,24 @@ def run_shard(shard, rec):
             gen.used = saved
             if m is not None and m["items"] is not None:
                 items, kind = m["items"], k
+        if kind in ("unknown-tag", "extension-forbidden", "bad-value", "bad-unit", "bracket-char", "requires-child") \
+                and rng.random() < 0.5:
+            # a second tag-level fault of another kind: which of the two comes first in the text must not matter
+            k2 = rng.choice([k for k in ("unknown-tag", "bracket-char", "extension-forbidden", "bad-value") if k != kind])
+            saved = set(gen.used)
+            try:
+                m2 = annot.mutate(gen, items, k2, rng)
+            except RuntimeError:
+                m2 = None
+            gen.used = saved
+            if m2 is not None and m2["items"] is not None:
+                items, kind = m2["items"], "two-tag-faults"
+                if rng.random() < 0.6:
+                    # a third one whose fault is a character inside the tag itself (found tag by tag, not on the whole text)
+                    import copy
+                    items = copy.deepcopy(items)
+                    w = rng.choice(["Zz.dotted", "Qq$word", "Re.d", "Item/Zz=ext"])
+                    annot._insert_raw(items, rng, {"t": "tag", "name": w, "suffix": "", "node": None, "role": "raw", "raw": w})
         if kind == "valid" and rng.random() < 0.15:
             saved = set(gen.used)
             try:
